@@ -141,3 +141,9 @@ package btree
 //@   requires order >= 3
 //@   modifies nothing
 //@   ensures [C01 C07 C15 C17] fresh(result) && Cfg(result) && result.m == order && result.size == 0 && result.Root == nil && result.Comparator != nil && SWO(result.Comparator, argof(result.Comparator, 0))
+
+//@ -- Entry.String: formats the key; reads only
+//@ func Entry.String
+//@   requires entry != nil
+//@   modifies nothing
+//@   ensures [C17 C18] true
